@@ -6,7 +6,7 @@ Oracle: the verdict known by construction (every input has >= m distinct signers
 signatures commit to was changed), cross-checked by the reference consensus interpreter on the (tampered)
 serialisation against the prevout scripts of the plan.
 """
-from vlib.core import Discrepancy
+from vlib.core import Discrepancy, HarnessError
 
 LEVEL = 'exploration'
 TECHNIQUE = ('Hypothesis signing histories + single-field tamper operators on object and bytes; oracle = verdict by '
@@ -522,9 +522,113 @@ def check_dup(ctx, case):
         ctx.klass('dup.valid_refused')
 
 
+def _sigs_of_input(tx, k, inp):
+    """DER+hash type signatures of input k of a reference-signed transaction, in the order they are carried."""
+    if inp['kind'] in ('p2wpkh', 'p2sh_p2wpkh'):
+        return [tx.vin[k].witness[0]]
+    if inp['kind'] in ('p2wsh_ms', 'p2sh_p2wsh_ms'):
+        return list(tx.vin[k].witness[1:-1])
+    return [it for (where, n), it in zip(_find_sig_items(tx, k), [None] * 99)] or []
+
+
+def check_hashtypes(ctx, case):
+    """Transactions signed by the reference signer with a hash type of its own for every signature (SIGHASH_ALL on
+    legacy inputs, any of 01 02 03 81 82 83 on witness inputs: the library implements BIP143 for all of them), read by
+    the library from bytes or handed to it as signature objects (add_input(signatures=...)): verify() is True. Variant
+    'cross': the signatures of a later input are made over the digest of an EARLIER input - every signature is a good
+    signature of its key, but not over its own input's digest: verify() is False.
+    case: kind=hts, plan, hts {input: [types]}, medium bytes|object, cross: None | [later, earlier]"""
+    from props import txplan
+    from props.c01_sighash import _ref_signed_tx
+    from ref import interp
+    plan = case['plan']
+    if case.get('medium') == 'object' and plan['version'] == 1 and \
+            any(0 < i['seq'] < 0x80000000 for i in plan['inputs']):
+        # (add_input raises the version of a version 1 transaction to 2 when an input carries a relative lock time:
+        # the transaction that is signed is the one the library object will be)
+        plan = dict(plan, version=2)
+    n_in = len(plan['inputs'])
+    hts = {}
+    for k, inp in enumerate(plan['inputs']):
+        lst = (case.get('hts') or {}).get(str(k)) or []
+        hts[k] = [h if inp['kind'] in txplan.SEGWIT_KINDS else 1 for h in lst]
+    cross = case.get('cross')
+    digest_of = None
+    if cross and n_in >= 2:
+        later, earlier = sorted(set(x % n_in for x in cross))[-1], sorted(set(x % n_in for x in cross))[0]
+        if later != earlier:
+            digest_of = {later: earlier}
+    amounts = [i['value'] for i in plan['inputs']]
+    try:
+        rtx = _ref_signed_tx(plan, hash_types=hts, digest_of=digest_of)
+        raw = rtx.serialize()
+        ref_ok, why = _ref_verdict(raw, plan, amounts)
+    except Exception as e:
+        raise HarnessError('reference signer failed: %r' % e)
+    if digest_of is None and not ref_ok:
+        raise HarnessError('reference-signed transaction rejected by the reference interpreter: %s' % why)
+    if digest_of is not None and ref_ok:
+        ctx.klass('hts.cross_still_valid')        # (same digest: e.g. equal inputs) nothing to learn
+        return
+    kinds = '+'.join(sorted(set(i['kind'] for i in plan['inputs'])))
+    try:
+        if case.get('medium') == 'object':
+            from bitcoinlib.transactions import Transaction
+            from bitcoinlib.keys import Key
+            segwit = any(i['kind'] in txplan.SEGWIT_KINDS for i in plan['inputs'])
+            t = Transaction(network=plan['network'], version=plan['version'], locktime=plan['locktime'],
+                            witness_type='segwit' if segwit else 'legacy')
+            for k, inp in enumerate(plan['inputs']):
+                keys = [Key(txplan.pub_bytes(d, inp['compressed']).hex(), network=plan['network'])
+                        for d in inp['secrets']]
+                if inp['kind'] in txplan.SEGWIT_KINDS:
+                    sigs = _sigs_of_input(rtx, k, inp)
+                else:
+                    sigs = [rtx_item for rtx_item in _legacy_sig_items(rtx, k)]
+                t.add_input(prev_txid=inp['prev'], output_n=inp['n'], keys=keys, signatures=sigs,
+                            script_type=txplan.lib_script_type(inp),
+                            sigs_required=inp['m'] if inp['kind'] in txplan.MS_KINDS else None,
+                            sort=bool(inp.get('sort')), sequence=inp['seq'], compressed=inp['compressed'],
+                            value=inp['value'], witness_type=txplan.lib_witness_type(inp))
+            for o in plan['outputs']:
+                t.add_output(o['value'], lock_script=txplan.output_script(o))
+        else:
+            t = _parse_for_verify(raw, plan, amounts)
+        got, exc = _lib_verify(t)
+    except Exception as e:
+        if digest_of is not None:
+            ctx.refusal('hts.build.%s' % type(e).__name__)
+            return
+        raise Discrepancy('hts.build.raises:%s' % case.get('medium'), 'building / parsing the reference-signed '
+                          'transaction raised %r (%s)' % (e, kinds), case)
+    types = sorted(set(h for l in hts.values() for h in l))
+    ctx.klass('hts.%s.%s' % (case.get('medium'), 'cross' if digest_of else 'valid'))
+    if any(h != 1 for h in types):
+        ctx.klass('hts.other_than_all')
+    if digest_of is None and not got:
+        ctx.disc('hts.verify_false:%s' % case.get('medium'), 'verify() is %r (%r) on a transaction whose every signature '
+                 'is valid for the digest its own hash type selects (hash types %r per input, %s)' %
+                 (got, exc, hts, kinds), case)
+    elif digest_of is not None and got:
+        ctx.disc('hts.cross_accepted:%s' % case.get('medium'), 'verify() True although the signatures of input %d were '
+                 'made over the digest of input %d (hash types %r, %s); consensus interpreter: %s' %
+                 (list(digest_of)[0], list(digest_of.values())[0], hts, kinds, why), case)
+
+
+def _legacy_sig_items(tx, k):
+    from ref import wire
+    items = []
+    for op, data in wire.script_iter(tx.vin[k].script_sig):
+        if data is not None and len(data) >= 9 and data[:1] == b'\x30':
+            items.append(bytes(data))
+    return items
+
+
 def replay(ctx, case):
     if case.get('kind') == 'dup':
         check_dup(ctx, case)
+    elif case.get('kind') == 'hts':
+        check_hashtypes(ctx, case)
     else:
         check(ctx, case)
 
@@ -582,6 +686,27 @@ def run(ctx):
         check(ctx, case)
 
     ctx.run_given('verify', _strategy(ctx), prop, ctx.scale(150, 3000))
+
+    from hypothesis import strategies as hst
+    from props import txplan as _tp
+
+    @hst.composite
+    def hts_cases(draw):
+        plan = draw(_tp.plans(max_inputs=3, max_outputs=2, max_keys=3))
+        for inp in plan['inputs']:
+            perm = draw(hst.permutations(list(range(len(inp['secrets'])))))
+            inp['signers'] = list(perm[:inp['m']])
+        hts = {}
+        for k, inp in enumerate(plan['inputs']):
+            hts[str(k)] = draw(hst.lists(hst.sampled_from([1, 1, 2, 3, 0x81, 0x82, 0x83]), min_size=inp['m'],
+                                         max_size=inp['m']))
+        return {'kind': 'hts', 'plan': plan, 'hts': hts, 'medium': draw(hst.sampled_from(['bytes', 'object'])),
+                'cross': draw(hst.one_of(hst.none(), hst.lists(hst.integers(0, 2), min_size=2, max_size=2)))}
+
+    def prop_hts(case):
+        ctx.nt(case)
+        check_hashtypes(ctx, case)
+    ctx.run_given('hashtypes', hts_cases(), prop_hts, ctx.scale(40, 1500))
 
     from hypothesis import strategies as st
     from vlib import gen
